@@ -99,6 +99,7 @@ fn sim_case(ctx: &Ctx, out: &mut Outcome, rng: &mut Rng, idx: u64) {
     // answer with an error - what no query may do is answer from another query's chunk set (an error path that
     // resolves the table name again would).
     let fault_at: Option<u64> = if rng.chance(1, 3) { Some(rng.below(30)) } else { None };
+    let adaptive = rng.chance(1, 2);
     let res = sim::run_sim(async move {
         let store = Arc::new(InMemory::new());
         let ctl = Ctl::with_backing(store.clone());
@@ -108,6 +109,11 @@ fn sim_case(ctx: &Ctx, out: &mut Outcome, rng: &mut Rng, idx: u64) {
         let mut node = QueryNode::new(crate::checks::c09::query_config(), ctl.store("node"), meta.clone() as Arc<dyn MetadataClient>, storage_config()).await.map_err(|e| e.to_string())?;
         let (btx, _) = tokio::sync::broadcast::channel::<RecordBatch>(4);
         node.connect_broadcast(btx.subscribe());
+        // half the nodes run with adaptive indexing attached (its own execution path: a second code path for the
+        // same operation)
+        if adaptive {
+            node = node.with_adaptive_indexing(Arc::new(cardinalsin::adaptive_index::AdaptiveIndexController::new(cardinalsin::adaptive_index::AdaptiveIndexConfig::default())));
+        }
         let node = Arc::new(node);
         let queries: Vec<String> = (0..nq).map(|_| gen_query(&mut qrng, base)).collect();
         // answers alone (sequential), before any concurrency
@@ -192,6 +198,9 @@ fn sim_case(ctx: &Ctx, out: &mut Outcome, rng: &mut Rng, idx: u64) {
         }
     };
     out.count("sim.schedules", 1);
+    if adaptive {
+        out.count("sim.schedules_on_a_node_with_adaptive_indexing", 1);
+    }
     if fault_hit {
         out.count("sim.schedules_with_a_failed_read", 1);
     }
@@ -246,7 +255,11 @@ fn stress(ctx: &Ctx, out: &mut Outcome) {
             let store = Arc::new(InMemory::new());
             let meta = Arc::new(LocalMetadataClient::new());
             let Ok((all, base)) = dataset(&mut rng, idx as i64 * 10_000, store.clone(), meta.clone()).await else { continue };
-            let Ok(node) = QueryNode::new(crate::checks::c09::query_config(), store.clone(), meta.clone() as Arc<dyn MetadataClient>, storage_config()).await else { continue };
+            let Ok(mut node) = QueryNode::new(crate::checks::c09::query_config(), store.clone(), meta.clone() as Arc<dyn MetadataClient>, storage_config()).await else { continue };
+            if rng.chance(1, 2) {
+                node = node.with_adaptive_indexing(Arc::new(cardinalsin::adaptive_index::AdaptiveIndexController::new(cardinalsin::adaptive_index::AdaptiveIndexConfig::default())));
+                out.count("stress.rounds_with_adaptive_indexing", 1);
+            }
             let node = Arc::new(node);
             let nq = 8 + rng.usize(9);
             let queries: Vec<String> = (0..nq).map(|_| gen_query(&mut rng, base)).collect();
